@@ -77,3 +77,46 @@ func RunBinSlowPipe(bin string, args []string, stdin []byte, env []string, dir s
 	res.Stderr = se.Bytes()
 	return res
 }
+
+// RunBinStdinFile is RunBin with the standard input redirected from a regular file
+// (`cmd < file`) instead of fed through a pipe.
+func RunBinStdinFile(bin string, args []string, stdinPath string, env []string, dir string, watchdog time.Duration) BinResult {
+	in, err := os.Open(stdinPath)
+	if err != nil {
+		return BinResult{Exit: -1, Stderr: []byte(err.Error())}
+	}
+	defer in.Close()
+	cmd := exec.Command(bin, args...)
+	if dir != "" {
+		cmd.Dir = dir
+	}
+	cmd.Stdin = in
+	var so, se bytes.Buffer
+	cmd.Stdout = &so
+	cmd.Stderr = &se
+	cmd.Env = append(os.Environ(), env...)
+	if err := cmd.Start(); err != nil {
+		return BinResult{Exit: -1, Stderr: []byte(err.Error())}
+	}
+	done := make(chan error, 1)
+	go func() { done <- cmd.Wait() }()
+	var res BinResult
+	select {
+	case err := <-done:
+		res.Exit = exitCode(err)
+	case <-time.After(watchdog):
+		res.TimedOut = true
+		cmd.Process.Signal(sigQuit)
+		select {
+		case <-done:
+		case <-time.After(10 * time.Second):
+			cmd.Process.Kill()
+			<-done
+		}
+		res.Exit = -2
+		res.Dump = se.String()
+	}
+	res.Stdout = so.Bytes()
+	res.Stderr = se.Bytes()
+	return res
+}
